@@ -61,6 +61,8 @@ type FuncContract struct {
 	Opts        map[string]string
 	ReplayTmpl  string
 	ReplayVals  []ReplayVal
+	IntRequires []Clause // bv-mode function: precondition as seen by int-mode callers
+	IntEnsures  []Clause // bv-mode function: postcondition as seen by int-mode callers (bridging assumption)
 }
 
 type ReplayVal struct {
@@ -75,6 +77,35 @@ type TypeContract struct {
 	Ghosts []GhostDecl
 	Invs   []Clause
 	Opts   map[string]string
+	Locks  []*LockDecl
+}
+
+// LockDecl: `lock <mutex field> protects f1 f2 …` and `lockinv <mutex field> <expr over self>`.
+type LockDecl struct {
+	Field    string
+	Protects []string
+	Invs     []Clause
+}
+
+func (t *TypeContract) lockDecl(field string) *LockDecl {
+	for _, l := range t.Locks {
+		if l.Field == field {
+			return l
+		}
+	}
+	return nil
+}
+
+// lockOf returns the lock declaration that protects the given field, if any.
+func (t *TypeContract) lockOf(field string) *LockDecl {
+	for _, l := range t.Locks {
+		for _, p := range l.Protects {
+			if p == field {
+				return l
+			}
+		}
+	}
+	return nil
 }
 
 type PureFunc struct {
@@ -109,7 +140,7 @@ var clauseKeywords = map[string]bool{
 	"func": true, "type": true, "tags": true, "mode": true, "requires": true, "modifies": true, "ensures": true,
 	"loop": true, "at": true, "ghost": true, "invariant": true, "pure": true, "axiom": true, "lemma": true,
 	"trusted": true, "panics": true, "noreturn": true, "params": true, "results": true, "skip": true, "sweep": true,
-	"ifaceghost": true, "assume-text": true, "opt": true, "smt": true, "replay": true,
+	"ifaceghost": true, "assume-text": true, "opt": true, "smt": true, "replay": true, "intview": true, "lock": true, "lockinv": true,
 }
 
 var labelRe = regexp.MustCompile(`^\[([A-Za-z0-9_.\-]+)\]\s*`)
@@ -214,7 +245,7 @@ func (c *Contracts) loadFile(path, pkg string, trusted bool) error {
 	for _, rc := range clauses {
 		switch rc.kw {
 		case "func":
-			key := qualifyKey(strings.TrimSpace(rc.text), pkg)
+			key := normalizeFnKey(qualifyKey(strings.TrimSpace(rc.text), pkg))
 			if _, dup := c.Funcs[key]; dup {
 				return fmt.Errorf("%s:%d: duplicate contract for %s", path, rc.line, key)
 			}
@@ -376,6 +407,10 @@ func (c *Contracts) loadFile(path, pkg string, trusted bool) error {
 				return fmt.Errorf("%s:%d: at outside func", path, rc.line)
 			}
 			// at <anchor words> (ghost <lhs> = <expr> | assert <expr> | assume <expr>)
+			if lm := regexp.MustCompile(`^(.*?)\s+label\s+([A-Za-z_][A-Za-z0-9_]*)$`).FindStringSubmatch(rc.text); lm != nil {
+				curF.Ats = append(curF.Ats, AtSpec{Anchor: strings.Join(strings.Fields(lm[1]), " "), Kind: "label", Target: lm[2]})
+				continue
+			}
 			m := regexp.MustCompile(`^(.*?)\s+(ghost|assert|assume)\s+(.*)$`).FindStringSubmatch(rc.text)
 			if m == nil {
 				return fmt.Errorf("%s:%d: bad at clause", path, rc.line)
@@ -410,6 +445,49 @@ func (c *Contracts) loadFile(path, pkg string, trusted bool) error {
 				c.Axioms = append(c.Axioms, cl)
 			} else {
 				c.Lemmas = append(c.Lemmas, cl)
+			}
+		case "lock":
+			if curT == nil {
+				return fmt.Errorf("%s:%d: lock outside type", path, rc.line)
+			}
+			fs := strings.Fields(rc.text)
+			if len(fs) < 3 || fs[1] != "protects" {
+				return fmt.Errorf("%s:%d: lock <field> protects <fields…>", path, rc.line)
+			}
+			curT.Locks = append(curT.Locks, &LockDecl{Field: fs[0], Protects: fs[2:]})
+		case "lockinv":
+			if curT == nil {
+				return fmt.Errorf("%s:%d: lockinv outside type", path, rc.line)
+			}
+			fs := strings.SplitN(rc.text, " ", 2)
+			if len(fs) < 2 {
+				return fmt.Errorf("%s:%d: lockinv <field> <expr>", path, rc.line)
+			}
+			ld := curT.lockDecl(fs[0])
+			if ld == nil {
+				return fmt.Errorf("%s:%d: lockinv for undeclared lock %s", path, rc.line, fs[0])
+			}
+			cl, err := mkClause(strings.TrimSpace(fs[1]), rc.line)
+			if err != nil {
+				return err
+			}
+			ld.Invs = append(ld.Invs, cl)
+		case "intview":
+			if curF == nil {
+				return fmt.Errorf("%s:%d: intview outside func", path, rc.line)
+			}
+			fs := strings.SplitN(rc.text, " ", 2)
+			if len(fs) < 2 || (fs[0] != "requires" && fs[0] != "ensures") {
+				return fmt.Errorf("%s:%d: intview requires|ensures <expr>", path, rc.line)
+			}
+			cl, err := mkClause(strings.TrimSpace(fs[1]), rc.line)
+			if err != nil {
+				return err
+			}
+			if fs[0] == "requires" {
+				curF.IntRequires = append(curF.IntRequires, cl)
+			} else {
+				curF.IntEnsures = append(curF.IntEnsures, cl)
 			}
 		case "replay":
 			if curF == nil {
